@@ -232,8 +232,14 @@ counted_array!(pub static ARGS: [ArgInfo<gcc::ArgData>; _] = [
     // Note: this overrides the -fprofile-use option in gcc.rs.
     take_arg!("-fprofile-use", PathBuf, Concatenated('='), ClangProfileUse),
     take_arg!("-fsanitize-blacklist", PathBuf, Concatenated('='), ExtraHashFile),
+    take_arg!("-fsanitize-coverage-allowlist", PathBuf, Concatenated('='), ExtraHashFile),
+    take_arg!("-fsanitize-coverage-ignorelist", PathBuf, Concatenated('='), ExtraHashFile),
+    take_arg!("-fsanitize-ignorelist", PathBuf, Concatenated('='), ExtraHashFile),
     take_arg!("-ftime-trace", OsString, Concatenated, TooHard),
     flag!("-fuse-ctor-homing", PassThroughFlag),
+    take_arg!("-fxray-always-instrument", PathBuf, Concatenated('='), ExtraHashFile),
+    take_arg!("-fxray-attr-list", PathBuf, Concatenated('='), ExtraHashFile),
+    take_arg!("-fxray-never-instrument", PathBuf, Concatenated('='), ExtraHashFile),
     take_arg!("-gcc-toolchain", OsString, Separated, PassThrough),
     flag!("-gcodeview", PassThroughFlag),
     take_arg!("-include-pch", PathBuf, CanBeSeparated, PreprocessorArgumentPath),
